@@ -1164,13 +1164,16 @@ async fn output(
                 let Some((_, key_r)) = mac_s_key_r.get(p).copied() else {
                     return Err(MpcError::InvalidOutputMac(out).into());
                 };
-                if let Some((r, mac_r)) = output_wire {
-                    if *mac_r != key_r ^ (*r & delta) {
-                        return Err(MpcError::InvalidOutputMac(out).into());
-                    } else if let Some(o) = output_wires.get(out.0 as usize).copied().flatten() {
-                        output_wires[out] = Some(o ^ r);
-                    };
-                }
+                // Every party has to open its share of every output wire: a share that is left
+                // out must not be taken for a zero share.
+                let Some((r, mac_r)) = output_wire else {
+                    return Err(MpcError::MissingOutputShareForOutReg(out).into());
+                };
+                if *mac_r != key_r ^ (*r & delta) {
+                    return Err(MpcError::InvalidOutputMac(out).into());
+                } else if let Some(o) = output_wires.get(out.0 as usize).copied().flatten() {
+                    output_wires[out] = Some(o ^ r);
+                };
             }
         }
         // Here, we explicitly don't use unique_output_regs, as duplicate output registers
